@@ -89,6 +89,13 @@ KERNEL int K(k_comp3)(const size_t* shape, const unsigned* data, const int* p, O
   if (!nm::has_value(mv)) return 0; const auto& v = nm::unwrap(mv);
   auto c = fn::get_function_composition(v); const auto& ops = fn::get_function_operands(v);
   V(5, c(a)); same[0] = (nm::get<0>(nm::unwrap(ops)) == &a); return 6; }
+// every parenthesisation of a 4-functor chain f*g*h*k (k innermost): invert(flip(transpose(flip(a, p[3])), p[2])); in particular (f*g)*(h*k), where both sides of one * are compositions
+KERNEL int K(k_comp4)(const size_t* shape, const unsigned* data, const int* p, OUTS, int* same){
+  a2_t a; if (!mk2(a,shape,data)) return -1;
+  auto k = fn::flip[p[3]]; auto h = fn::transpose[ax2(p)]; auto g = fn::flip[p[2]]; auto f = fn::invert;
+  auto mv = view::invert(view::flip(view::transpose(view::flip(a, p[3]), ax2(p)), p[2])); V(0, mv);
+  V(1, ((f * g) * (h * k))(a)); V(2, (f * (g * (h * k)))(a)); V(3, (((f * g) * h) * k)(a)); V(4, (f * g * h * k)(a)); V(5, ((f * (g * h)) * k)(a)); V(6, f(g(h(k(a)))));
+  same[0] = 1; return 7; }
 // a reduction as the outer functor of a composition
 KERNEL int K(k_comp_sum)(const size_t* shape, const unsigned* data, const int* p, OUTS, int* same){
   a2_t a; if (!mk2(a,shape,data)) return -1;
